@@ -83,3 +83,39 @@ package bluemonday
 //@   modifies r :: r == p && !p.initialized
 //@   ensures[C16] outFailed ==> result != nil
 //@   ensures[C16] result == nil ==> tzErr == io.EOF
+
+//@ func bluemonday.isDataAttribute
+//@   modifies nothing
+//@   ensures result ==> rmatch(dataAttribute, val)
+
+//@ func (*bluemonday.Policy).sanitizeStyles
+//@   requires wfp(p) && p.initialized
+//@   modifies nothing
+//@   ensures result.Key == attr.Key && result.Namespace == attr.Namespace
+//@   ensures[C02] result.Val == "" || styleFiltered(p, elementName, result.Val)
+
+//@ func (*bluemonday.Policy).sanitizeAttrs
+//@   requires wfp(p) && p.initialized
+//@   requires[C02] apsFor(p, elementName, aps)
+//@   modifies nothing
+//@   ensures[C02] attrsGood(p, elementName, result)
+//@   loop 1 "for _, htmlAttr := range attrs"
+//@     invariant[C02] attrsAdm(p, elementName, cleanAttrs)
+//@   loop 4 "for _, htmlAttr := range cleanAttrs"
+//@     invariant[C02] attrsAdm(p, elementName, cleanAttrs)
+//@     invariant[C02] attrsGood(p, elementName, tmpAttrs)
+//@     invariant forall i int :: 0 <= i && i < len(cleanAttrs) ==> cleanAttrs[i] == pre(cleanAttrs[i])
+//@   loop 6 "for _, htmlAttr := range cleanAttrs"
+//@     invariant[C02] attrsGood(p, elementName, cleanAttrs)
+//@     invariant[C02] attrsGood(p, elementName, tmpAttrs)
+//@     invariant forall i int :: 0 <= i && i < len(cleanAttrs) ==> cleanAttrs[i] == pre(cleanAttrs[i])
+//@   loop 7 "for _, htmlAttr := range cleanAttrs"
+//@     invariant[C02] attrsGood(p, elementName, cleanAttrs)
+//@     invariant[C02] attrsGood(p, elementName, tmpAttrs)
+//@     invariant forall i int :: 0 <= i && i < len(cleanAttrs) ==> cleanAttrs[i] == pre(cleanAttrs[i])
+//@   loop 8 "for i, htmlAttr := range cleanAttrs"
+//@     invariant[C02] attrsGood(p, elementName, cleanAttrs)
+//@   loop 9 "for i, htmlAttr := range cleanAttrs"
+//@     invariant[C02] attrsGood(p, elementName, cleanAttrs)
+//@   loop 10 "for _, val := range strings.Fields(htmlAttr.Val)"
+//@     invariant[C02] attrsGood(p, elementName, cleanAttrs)
